@@ -641,6 +641,12 @@ class JSONPatch:
                 raise JSONPatchError(f"{err} ({op.name}:{i})") from err
             except (JSONPointerError, JSONPatchError) as err:
                 raise JSONPatchError(f"{err} ({op.name}:{i})") from err
+            except (KeyError, IndexError, TypeError, ValueError) as err:
+                # For example, the non-standard `#name` and `#index` pointers
+                # resolve to a key or index, which can't be removed or moved.
+                raise JSONPatchError(
+                    f"{err.__class__.__name__}: {err} ({op.name}:{i})"
+                ) from err
 
         return _data
 
